@@ -40,10 +40,15 @@ def undictify_complex_values(data: dict) -> dict:
     return data
 
 def dictify_all_complex_values(data: dict) -> dict:
-    for key, value in data.items():
+    def convert(value):
+        if isinstance(value, complex):
+            return {'real': value.real, 'imag': value.imag}
         if isinstance(value, dict):
-            data[key] = dictify_all_complex_values(value)
-    return data
+            return {k: convert(v) for k, v in value.items()}
+        if isinstance(value, list):
+            return [convert(v) for v in value]
+        return value
+    return convert(data)
 
 def undictify_all_complex_values(data: dict) -> dict:
     for key, value in data.items():
